@@ -13,9 +13,10 @@
 //	                               referrers of every subject); when op != "" re-run op with another
 //	                               fresh client and probe again
 //
-// Operations (O):  blob_put:<L>  put_tag:<tag>:<M>  put_digest:<M>  put_child:<M>  put_index:<tag>:<IX>
+// Operations (O):  blob_put:<L>[:nd|:ns]  blob_bad:<claimed>:<sent>:digest|size  man_bad:<refobj>:<M>  put_tag:<tag>:<M>  put_digest:<M>  put_child:<M>  put_index:<tag>:<IX>
 // put_ref:<tag>:<A>  put_refd:<A>  tag_delete:<tag>  man_delete:<M>  blob_delete:<L>  retag:<tag>:<oldtag>  copy:<tag>:<srctag>
-// copy_ref:<tag>:<srctag>  import:<tag>:<tarname> ; the suffix "+gc" calls rc.Close (garbage collection)
+// copy_ref:<tag>:<srctag>  import:<tag>:<tarname> ; the suffix "~rel" spells the target
+// layout with a relative path, "~td" gives the tagged put a reference with tag and digest; the suffix "+gc" calls rc.Close (garbage collection)
 // after the operation, like regctl does.
 package main
 
@@ -146,7 +147,10 @@ func buildCatalogue() {
 	addObj("L1", "layer", mtLayer, pseudo("L1", 40000), nil, "") // two write calls (32 KiB copy buffer)
 	addObj("L2", "layer", mtLayer, pseudo("L2", 300), nil, "")
 	addObj("L3", "layer", mtLayer, pseudo("L3", 500), nil, "")
-	addObj("L4", "layer", mtLayer, pseudo("L4", 70000), nil, "") // three write calls
+	addObj("L4", "layer", mtLayer, pseudo("L4", 70000), nil, "")   // three write calls
+	addObj("L0", "layer", mtLayer, []byte{}, nil, "")              // empty blob: no write call at all
+	addObj("LK", "layer", mtLayer, pseudo("LK", 32768), nil, "")   // exactly one copy buffer
+	addObj("LK1", "layer", mtLayer, pseudo("LK1", 32769), nil, "") // one byte more: two write calls
 	addObj("LA", "layer", "application/vnd.c07.sig", pseudo("LA", 120), nil, "")
 	addObj("LB", "layer", "application/vnd.c07.sbom", pseudo("LB", 150), nil, "")
 	addObj("CE", "config", mtEmpty, []byte("{}"), nil, "")
@@ -273,7 +277,15 @@ func mksrc(src string) {
 
 // ---------------------------------------------------------------- operations on the real client
 
+// spelling of the target layout's path in references (-mode op only): absolute (default) or relative to the
+// working directory; tagDigest makes the tagged manifest put use a reference that carries tag AND digest
+var spell = map[string]string{}
+var tagDigest bool
+
 func tref(dir, tag string) ref.Ref {
+	if sp, ok := spell[dir]; ok {
+		dir = sp
+	}
 	s := "ocidir://" + dir
 	if strings.HasPrefix(tag, "sha256:") {
 		s += "@" + tag
@@ -288,9 +300,24 @@ func tref(dir, tag string) ref.Ref {
 }
 
 func putBlob(ctx context.Context, rc *regclient.RegClient, dir, name string) error {
+	return putBlobAs(ctx, rc, dir, name, "")
+}
+
+// putBlobAs: variant "" = descriptor with digest and size; "nd" = neither digest nor size (the layout computes
+// them, as the docker-archive import does); "ns" = digest without size
+func putBlobAs(ctx context.Context, rc *regclient.RegClient, dir, name, variant string) error {
 	o := cat[name]
-	_, err := rc.BlobPut(ctx, tref(dir, ""), descriptor.Descriptor{MediaType: o.MediaType, Digest: digest.Digest(o.Digest), Size: o.Size},
-		bytes.NewReader(o.data))
+	d := descriptor.Descriptor{MediaType: o.MediaType, Digest: digest.Digest(o.Digest), Size: o.Size}
+	switch variant {
+	case "nd":
+		d.Digest, d.Size = "", 0
+	case "ns":
+		d.Size = 0
+	}
+	got, err := rc.BlobPut(ctx, tref(dir, ""), d, bytes.NewReader(o.data))
+	if err == nil && (got.Digest.String() != o.Digest || got.Size != o.Size) {
+		err = fmt.Errorf("BlobPut returned descriptor %s/%d for %s", got.Digest, got.Size, name)
+	}
 	return err
 }
 
@@ -330,6 +357,9 @@ func runOp(ctx context.Context, rc *regclient.RegClient, dir, src, op string) (e
 			err = fmt.Errorf("panic: %v", p)
 		}
 	}()
+	if i := strings.Index(op, "~"); i >= 0 {
+		op = op[:i] // spelling variants only apply to the traced first attempt (set up in main)
+	}
 	gc := strings.HasSuffix(op, "+gc")
 	op = strings.TrimSuffix(op, "+gc")
 	a := strings.Split(op, ":")
@@ -342,7 +372,23 @@ func runOp(ctx context.Context, rc *regclient.RegClient, dir, src, op string) (e
 	closeRef := tref(dir, "")
 	switch a[0] {
 	case "blob_put":
-		err = putBlob(ctx, rc, dir, arg(1))
+		err = putBlobAs(ctx, rc, dir, arg(1), arg(2))
+	case "blob_bad":
+		// content that does not match its descriptor: arg1 = object whose digest is claimed, arg2 = object whose
+		// bytes are sent, arg3 = "digest" (claimed digest, true size of the bytes) | "size" (true digest, wrong size)
+		claimed, actual := cat[arg(1)], cat[arg(2)]
+		d := descriptor.Descriptor{MediaType: actual.MediaType, Digest: digest.Digest(claimed.Digest), Size: actual.Size}
+		if arg(3) == "size" {
+			d.Size = actual.Size + 7
+		}
+		_, err = rc.BlobPut(ctx, tref(dir, ""), d, bytes.NewReader(actual.data))
+	case "man_bad":
+		// manifest pushed to a digest reference that is not its digest: arg1 = object named by the reference, arg2 = manifest
+		var m manifest.Manifest
+		if m, err = manOf(arg(2)); err != nil {
+			break
+		}
+		err = rc.ManifestPut(ctx, tref(dir, cat[arg(1)].Digest), m)
 	case "put_tag", "put_index", "put_ref":
 		if err = putParts(ctx, rc, dir, arg(2)); err != nil {
 			break
@@ -352,6 +398,9 @@ func runOp(ctx context.Context, rc *regclient.RegClient, dir, src, op string) (e
 			break
 		}
 		closeRef = tref(dir, arg(1))
+		if tagDigest {
+			closeRef = closeRef.AddDigest(cat[arg(2)].Digest)
+		}
 		err = rc.ManifestPut(ctx, closeRef, m)
 	case "put_digest", "put_refd":
 		if err = putParts(ctx, rc, dir, arg(1)); err != nil {
@@ -675,6 +724,26 @@ func main() {
 			fatal(fmt.Errorf("setup %s: %w", *state, err))
 		}
 	case "op":
+		if i := strings.Index(*op, "~"); i >= 0 {
+			for _, v := range strings.Split((*op)[i+1:], "~") {
+				switch v {
+				case "rel":
+					cwd, errW := os.Getwd()
+					if errW != nil {
+						fatal(errW)
+					}
+					rel, errR := filepath.Rel(cwd, *dir)
+					if errR != nil {
+						fatal(errR)
+					}
+					spell[*dir] = "./" + rel
+				case "td":
+					tagDigest = true
+				default:
+					fatal(fmt.Errorf("unknown spelling variant %q", v))
+				}
+			}
+		}
 		err := runOp(ctx, regclient.New(), *dir, *src, *op)
 		r := map[string]any{"ok": 1, "err": ""}
 		if err != nil {
